@@ -179,6 +179,8 @@ type unmarshalEntry struct {
 type hasher struct {
 	// IDSize of the respective Shwap container
 	IDSize int // to be set during hasher registration
+	// MhCode is the multihash code the hasher is registered under
+	MhCode uint64 // to be set during hasher registration
 
 	sum []byte
 }
@@ -204,6 +206,14 @@ func (h *hasher) write(data []byte) error {
 	id, err := extractFromCID(cid)
 	if err != nil {
 		return err
+	}
+	// the digest this hasher produces is the ID of the inner CID, cut to the length named in the CID
+	// prefix the sender chose. The inner CID must therefore be of the very block type this hasher
+	// is registered for: otherwise the block of another type whose ID starts with (or equals) the
+	// bytes of a pending ID - a sample for its row, a sample (r,c) for the range [r,c) - hashes to
+	// that pending CID and fulfills the request without ever populating it
+	if cid.Prefix().MhType != h.MhCode {
+		return fmt.Errorf("multihash type %d of the block does not match the hasher's %d", cid.Prefix().MhType, h.MhCode)
 	}
 
 	// get registered UnmarshalFn and use it to check data validity and
